@@ -38,6 +38,8 @@ type Scenario struct {
 	AfterClients func(db *NoKV.DB)
 	// Closed is set (by thread 0) once Close has returned. A Scenario value is per execution.
 	Closed bool
+	// H is the harness handle of the opened DB (maintenance transitions), set before Prepare runs.
+	H *dbh.H
 }
 
 var dirSeq atomic.Int64
@@ -57,6 +59,7 @@ func Exec(sc *Scenario, base string, monitor func() (string, string), final func
 			panic(fmt.Sprintf("open: %v", err))
 		}
 		db := h.DB
+		sc.H = h
 		if sc.Prepare != nil {
 			sc.Prepare(db)
 		}
